@@ -252,6 +252,17 @@ mut2("c19_drawer_shared_default", "C19", [
      "    _default_drawers: Dict[type, QRModuleDrawer] = {}\n\n    def get_default_module_drawer(self) -> QRModuleDrawer:\n        cls = self.default_drawer_class\n        if cls not in self._default_drawers:\n            self._default_drawers[cls] = cls()\n        return self._default_drawers[cls]\n")],
     "default module drawer instances cached per class: the drawer keeps a reference to the *image* it was initialised for")
 
+mut2("c19_current_pattern_cell", "C19", [
+    (UTIL, "def mask_func(pattern):\n    \"\"\"\n    Return the mask function for the given mask pattern.\n    \"\"\"\n",
+     "_current_pattern = [0]\n\n\ndef mask_func(pattern):\n    \"\"\"\n    Return the mask function for the given mask pattern.\n    \"\"\"\n    _current_pattern[0] = pattern; pattern = _current_pattern[0]\n")],
+    "module-level one-element list holds the 'current' mask pattern for the duration of ONE line")
+mut2("c19_current_level_global", "C19", [
+    (UTIL, "def create_data(version, error_correction, data_list):\n    buffer = BitBuffer()\n",
+     "_current_level = 0\n\n\ndef create_data(version, error_correction, data_list):\n    global _current_level\n    buffer = BitBuffer()\n"),
+    (UTIL, "    rs_blocks = base.rs_blocks(version, error_correction)\n    bit_limit = sum(block.data_count * 8 for block in rs_blocks)\n    if len(buffer) > bit_limit:",
+     "    _current_level = error_correction; rs_blocks = base.rs_blocks(version, _current_level)\n    bit_limit = sum(block.data_count * 8 for block in rs_blocks)\n    if len(buffer) > bit_limit:")],
+    "module global scalar set and read within ONE line (window: a few bytecodes)")
+
 
 def main():
     os.makedirs(OUT, exist_ok=True)
